@@ -265,6 +265,13 @@ def run(ctx):
                  "build_objective, build_quadratic_constraints, quadratic_constraint_logic, build_linear_constraints, "
                  "reset_build_flags, get_objective_data, get_constraint_data of SequenceBasedRoutingProblem; meaning of the "
                  "emitted combinators: coq/theories/PySeqCons.v, PySeq.v, PyEnumCore.v)")
+    import translate_seqroutes as TR     # get_routes regenerated from the source (C07_routes_gen)
+    ctx.gen_step("seqroutes", TR.translate, "C07_routes_gen",
+                 "harness/translate_seqroutes.py + translate_routes.py (on translate_seqcons.py / translate_enumcore.py: "
+                 "ast -> Gallina printer for get_routes of SequenceBasedRoutingProblem; meaning of the emitted combinators -- "
+                 "list pop / item update, comprehensions, int-or-None truthiness, np.flatnonzero / np.array of "
+                 "tuples-or-None / np.flip / .T / np.lexsort as a stable sort: coq/theories/PyRoutes.v; vocabulary "
+                 "PySeqRoutes.v)")
     rng = ctx.rng
     n_cases = 220 if ctx.quick else 2500
     limit_n = 14 if ctx.quick else 16
